@@ -282,6 +282,12 @@ func specLabels(s *rt.Spec) []string {
 	}
 	for _, mp := range s.Maps {
 		l = append(l, "map")
+		if mp.KeyK != "" {
+			l = append(l, "mapkey:"+mp.KeyK)
+		}
+		if mp.Named {
+			l = append(l, "map:named-type")
+		}
 		if mp.End != nil {
 			l = append(l, "mapend")
 		}
@@ -366,6 +372,9 @@ func runCase(p *PackageSpec, prop string, scn int, race bool, tag string, replay
 	args := []string{}
 	if p.AutoInstr {
 		args = append(args, "-auto-instrument")
+	}
+	if p.SrcMap {
+		args = append(args, "-genmode=source-map")
 	}
 	args = append(args, "vcase/p")
 	o, code, to := run(mod, 120*time.Second, *flagCff, args...)
@@ -621,6 +630,9 @@ func TestBin(t *testing.T) {
 	rapid.Check(t, func(rt_ *rapid.T) {
 		p := GenPackage(rt_, o, nfiles, perFile)
 		p.Twin = prop == "C20"
+		if !p.Twin && uniform(rt_, "srcmap", 5) == 0 {
+			p.SrcMap = true
+		}
 		if prop != "C20" && (uniform(rt_, "autoinstr", 4) == 0 || os.Getenv("FORCE_AUTO") != "") {
 			p.AutoInstr = true
 		}
@@ -652,6 +664,9 @@ func TestBin(t *testing.T) {
 		if logf != nil {
 			for _, s := range p.Specs() {
 				ll := binLogLine{H: specHash(s), NT: nonTrivialSpec(prop, s), N: oc.scenarios[s.Name], Labels: specLabels(s), Other: others}
+				if p.SrcMap {
+					ll.Labels = append(ll.Labels, "genmode:source-map")
+				}
 				for k, v := range oc.scnClass {
 					if strings.HasPrefix(k, s.Name+"/") {
 						if ll.Extra == nil {
